@@ -3,7 +3,7 @@ CONSTANTS
   MaxSeq = 8
   Offsets = {998, 99997, 999997, 2007989}
   OffN = 4
-  LongOffsets = {0, 999997}
+  LongOffsets = {0}
   LongSizes = {40, 300}
   LongRuns <- RunsQuick
   FullQueries = 41
